@@ -759,6 +759,25 @@ def call_ext(ev, dotted, args, kwargs, node):
     if dotted == "functools.partial" and args:
         from .evalr import PartialV
         return PartialV(args[0], args[1:], kwargs)
+    if dotted == "itertools.product" and args and not kwargs:
+        import itertools as _it
+        cols = [ev.concrete_items(a) for a in args]
+        if all(c is not None for c in cols) and all(all(isinstance(x, V) for x in c) for c in cols):
+            n = 1
+            for c in cols:
+                n *= max(1, len(c))
+            if n <= 4096:
+                return Lst([Tup(list(t)) for t in _it.product(*cols)])
+    if dotted in ("itertools.chain",) and args and not kwargs:
+        cols = [ev.concrete_items(a) for a in args]
+        if all(c is not None for c in cols):
+            return Lst([x for c in cols for x in c])
+    if dotted in ("functools.lru_cache", "functools.cache"):
+        from .evalr import FuncV
+        # a value-keyed cache of a function is the function (the global-state rule reports where such caches are attached)
+        if len(args) == 1 and isinstance(args[0], FuncV) and not kwargs:
+            return args[0]
+        return _IDENTITY_DECORATOR
     if dotted in ("functools.wraps",):
         return _IDENTITY_DECORATOR
     if dotted in ("dataclasses.dataclass", "dataclasses.field"):
